@@ -7,8 +7,8 @@ set -u
 export GOFLAGS=-mod=mod GOPROXY=off GOSUMDB=off GOTOOLCHAIN=local
 SRC="$1"; ID="$2"
 WT="/tmp/mut/confirm-$ID"
-rm -rf "$WT"; git -C /repo worktree prune
-git -C /repo worktree add -q --detach "$WT" HEAD || exit 2
+rm -rf "$WT"; mkdir -p /tmp/mut
+flock /tmp/mut/.wtlock git -C /repo worktree add -q --detach "$WT" HEAD || exit 2
 cleanup() { git -C /repo worktree remove --force "$WT" >/dev/null 2>&1; }
 trap cleanup EXIT
 cd "$WT"
